@@ -87,7 +87,7 @@ def gen_g(r, name):
     t = wchoice(r, [("mix", 5), ("loop_sum", 1), ("bool_list", 1.2), ("lookup", 1), ("tuple", 1), ("const_index", 0.5), ("range", 0.4), ("with_def", 1.5), ("ifstmt", 1), ("list_tuples", 0.5),
                     ("builtins", 1.5), ("two_lists", 0.8), ("inner_def", 1.2), ("minmax", 0.6),
                     ("unpack", 0.8), ("enum_loop", 0.8), ("forward", 0.8), ("double_index", 0.6), ("augassign", 0.6), ("multi_assign", 1.0),
-                    ("reassign", 0.8), ("iterate_twice", 0.8), ("branch_const", 0.8), ("prefix_names", 0.6), ("sum_builtin", 1.2)])
+                    ("reassign", 0.8), ("iterate_twice", 0.8), ("branch_const", 0.8), ("prefix_names", 0.6), ("sum_builtin", 1.2), ("param_mutated", 1.4)])
     defs = []
     if t == "mix":
         # 1-4 parameters interleaved anywhere in the signature with 1-3 real arguments
@@ -181,6 +181,38 @@ def gen_g(r, name):
         form = r.randrange(3)
         body = ["    q = p\n    return (q and a) ^ (x == k)\n", "    j = k\n    q = p\n    return (x < j) or (q ^ a)\n", "    q = p\n    q = q ^ a\n    return q and (x != k)\n"][form]
         src = f"def {name}(a: bool, p: Parameter[bool], x: Qint[2], k: Parameter[Qint[2]]) -> bool:\n{body}"
+    elif t == "param_mutated":
+        # a parameter (or a literal-initialised local) is itself re-assigned / augmented in the body -- also inside an unrolled
+        # loop -- and LATER decides an `if` statement: whatever the pipeline remembers about the bound value must follow the body.
+        # Only bitwise operators, so that plain Python's value is the meaning at every width.
+        form = r.randrange(7)
+        n = r.randint(2, 4)
+        o1, o2 = r.sample(["^", "&", "|"], 2)
+        flip = r.choice(["sign ^= True", "sign = not sign", "sign ^= (v > 1)"])
+        if form == 0:
+            params, args, ret = [("sign", "bool"), ("p", f"Qlist[Qint[2], {n}]")], [("x", "Qint[2]")], "Qint[2]"
+            src = (f"def {name}(sign: Parameter[bool], p: Parameter[Qlist[Qint[2], {n}]], x: Qint[2]) -> Qint[2]:\n    s = x\n    for v in p:\n        if sign:\n            s = s {o1} v\n"
+                   f"        else:\n            s = s {o2} v\n        {flip}\n    return s\n")
+        elif form == 1:
+            params, args, ret = [("k", "Qint[2]")], [("a", "Qint[2]")], "Qint[2]"
+            c = r.choice(["k > 1", "k == 2", "k != 0", "k < 3"])
+            src = f"def {name}(a: Qint[2], k: Parameter[Qint[2]]) -> Qint[2]:\n    k ^= {r.randint(1, 3)}\n    r = a\n    if {c}:\n        r = a {o1} k\n    else:\n        r = a {o2} k\n    return r\n"
+        elif form in (2, 3):
+            params, args, ret = [("p", f"Qlist[bool, {n}]"), ("q", "bool")], [("a", "bool"), ("b", "bool")], "bool"
+            step = "c ^= True" if form == 2 else "c ^= v"
+            src = (f"def {name}(p: Parameter[Qlist[bool, {n}]], q: Parameter[bool], a: bool, b: bool) -> bool:\n    r = a\n    c = q\n    for v in p:\n        {step}\n"
+                   f"    if c:\n        r = a ^ b\n    else:\n        r = a and b\n    return r\n")
+        elif form == 4:
+            params, args, ret = [("p", "bool")], [("a", "bool"), ("b", "bool")], "bool"
+            src = f"def {name}(p: Parameter[bool], a: bool, b: bool) -> bool:\n    p ^= a\n    r = b\n    if p:\n        r = not b\n    return r\n"
+        elif form == 5:
+            params, args, ret = [("k", "Qint[2]")], [("x", "Qint[2]")], "Qint[2]"
+            src = (f"def {name}(k: Parameter[Qint[2]], x: Qint[2]) -> Qint[2]:\n    c = {r.randint(0, 1)}\n    for i in range({n}):\n        c ^= 1\n    r = x\n    if c == k:\n        r = x ^ 3\n"
+                   f"    else:\n        r = x {o1} 1\n    return r\n")
+        else:
+            params, args, ret = [("p", "bool"), ("q", "bool")], [("a", "bool"), ("b", "bool")], "bool"
+            src = (f"def {name}(p: Parameter[bool], a: bool, q: Parameter[bool], b: bool) -> bool:\n    p = not p\n    q ^= p\n    r = b\n    if p:\n        r = a\n    if q:\n        r = r ^ b\n"
+                   f"    else:\n        r = r or a\n    return r\n")
     elif t == "iterate_twice":
         n = r.randint(2, 3)
         params, args, ret = [("p", f"Qlist[bool, {n}]")], [("a", "bool"), ("b", "bool")], "bool"
